@@ -261,8 +261,13 @@ def check_property(prop, tier, seconds, max_plans, workers):
         "wall_s": round(wall, 2),
         "violations": len(violations),
     }
-    os.makedirs(os.path.join(orch.VERIF, "evidence"), exist_ok=True)
-    with open(os.path.join(orch.VERIF, "evidence", prop + ".json"), "w", encoding="utf-8") as fh:
+    # evidence is about /repo itself: a run against a scratch copy (FMSIM_REPO, used for seeded
+    # changes) must not overwrite it
+    evdir = os.path.join(orch.VERIF, "evidence")
+    if os.path.realpath(orch.REPO) != "/repo":
+        evdir = os.path.join(orch.scratch_base(), "fmsim-evidence-scratch")
+    os.makedirs(evdir, exist_ok=True)
+    with open(os.path.join(evdir, prop + ".json"), "w", encoding="utf-8") as fh:
         json.dump(evidence, fh, indent=1, sort_keys=True)
     print("%s %s: %d runs, %d segments, %d operations, %d distinct non-trivial histories, "
           "%d violation(s), %.1fs" % (prop, tier, stats["plans"], stats["segments"],
